@@ -57,6 +57,7 @@ ALLOF_PIECES = {
     "remote-ref": {"$ref": "other.yaml#/components/schemas/X"},
     "allof-conflict": {"type": "object", "properties": {"__CONFLICT__": {"type": "boolean"}}},
 }
+OP_SCHEMA_POSITIONS = ("body-schema", "response-schema", "param-schema")  # x every SCHEMA_PIECE
 OP_PIECES = ["param-array-no-items", "param-dangling-ref", "param-bad-default", "optional-path-param", "duplicate-params", "path-param-not-in-template",
              "placeholder-without-param", "body-only-xml", "body-extra-xml", "status-key-abc", "response-only-xml", "response-array-no-items",
              "response-dangling-ref", "header-date", "body-dangling-ref", "body-schema-array-no-items"]
@@ -172,6 +173,9 @@ def enumerate_faults(doc: dict) -> list[dict]:
             if piece == "body-extra-xml" and not isinstance(_resolve_component(doc, e["op"].get("requestBody"), "requestBodies"), dict):
                 continue
             out.append({"piece": piece, "pos": "operation", "op": opid})
+        for where in OP_SCHEMA_POSITIONS:
+            for piece in SCHEMA_PIECES:
+                out.append({"piece": f"{where}:{piece}", "pos": "operation", "op": opid})
     for path, item in (doc.get("paths") or {}).items():
         if isinstance(item, dict):
             for piece in ("param-array-no-items", "param-dangling-ref", "duplicate-params", "path-param-not-in-template", "header-date"):
@@ -365,6 +369,16 @@ def _add_param_piece(params: list, piece: str, bad: str, path: str) -> None:
 def _apply_op_piece(d: dict, e: dict, piece: str, bad: str) -> None:
     op = e["op"]
     params = op.setdefault("parameters", [])
+    if ":" in piece:
+        where, sp = piece.split(":", 1)
+        sch = copy.deepcopy(SCHEMA_PIECES[sp])
+        if where == "body-schema":
+            op["requestBody"] = {"content": {"application/json": {"schema": sch}}}
+        elif where == "response-schema":
+            op.setdefault("responses", {})["418"] = {"description": "x", "content": {"application/json": {"schema": sch}}}
+        else:
+            params.append({"name": bad, "in": "query", "schema": sch})
+        return
     if piece in ("param-array-no-items", "param-dangling-ref", "param-bad-default", "duplicate-params", "path-param-not-in-template", "header-date"):
         _add_param_piece(params, piece, bad, e["path"])
     elif piece == "optional-path-param":
@@ -419,7 +433,7 @@ def provenance(rel: str, schema_names: list[str], op_ids: list[str]) -> str | No
                 if best is None or len(pre) > len(best[1]):
                     best = (f"E:{opid}", pre)
         for sn in schema_names:
-            pre = sn.lower()
+            pre = _snake(sn)
             if stem == pre or stem.startswith(pre + "_"):
                 if best is None or len(pre) > len(best[1]):
                     best = (f"S:{sn}", pre)
